@@ -392,6 +392,26 @@ def build(tier, rng):
                     g_max.check(v == ("ok", False), f"byte-matters:{name}", "changing one byte of a 4096-byte password still verifies (hash does not depend on every byte)", dict(wit, position=i, outcome=repr(v)[:60]))
                 v = call(hc.verify, pw[:-1], hs, **kw)
                 g_max.check(v == ("ok", False), f"byte-matters:{name}:last", "dropping the last byte of a 4096-byte password still verifies", dict(wit, outcome=repr(v)[:60]))
+    # one context with several schemes, default first and a deprecated one last
+    try:
+        multi = CryptContext(schemes=["sha256_crypt", "pbkdf2_sha256", "md5_crypt", "des_crypt"], deprecated=["des_crypt"], sha256_crypt__rounds=1000, pbkdf2_sha256__rounds=1)
+    except Exception as err:  # noqa: BLE001
+        multi = None
+        skipped.append(f"multi-scheme CryptContext: {type(err).__name__}: {err}")
+    if multi is not None:
+        olds = {sch: multi.handler(sch).hash("ab") for sch in multi.schemes()}
+        for kind in ("str", "bytes"):
+            big = base_pw if kind == "str" else base_pw.encode()
+            g_max.case(("multi-context", kind, 4097))
+            o = call(multi.hash, big)
+            g_max.check(o[0] == "exc" and isinstance(o[1], exc.PasswordSizeError), f"oversize-context-hash:multi:{kind}", f"multi-scheme CryptContext.hash() of a 4097-{kind} password: {exname(o) or 'accepted'}", {"kind": kind})
+            for sch, old in olds.items():
+                for meth in ("verify", "verify_and_update"):
+                    o = call(getattr(multi, meth), big, old)
+                    g_max.check(o[0] == "exc" and isinstance(o[1], exc.PasswordSizeError), f"oversize-context-{meth}:multi:{sch}:{kind}", f"multi-scheme CryptContext.{meth}() of a 4097-{kind} password against a {sch} hash: {exname(o) or repr(o[1])[:40]}", {"kind": kind, "scheme": sch, "hash": old})
+            g_max.case(("multi-context", kind, 4096))
+            o = call(multi.hash, big[:4096])
+            g_max.check(o[0] == "ok" and call(multi.verify, big[:4096], o[1]) == ("ok", True), f"size-context:multi:{kind}", "multi-scheme CryptContext refuses or fails to verify a 4096 password", {"kind": kind, "outcome": repr(o)[:80]})
     t_max = time.time()
 
     # ------------------------------------------------------------------------------------------------
